@@ -486,7 +486,90 @@ def part_readers(ctx):
                 ctx.violation("a read-only request answered differently when issued concurrently with other readers than alone "
                               "(%s %s: concurrently %s, alone %s)" % (b["request"][0], b["request"][1], b["concurrent_status"], b["alone_status"]),
                               dict(kind="readers", plan=plan, storage_type=stype, rounds=rounds, first=b, differing=len(bad)), signature=None)
-    ctx.extra["readers"] = dict(requests=total)
+    # one item, its cache entry cold or stale, two readers at once, reader 2 looks while reader 1 writes the entry
+    cold = 0
+    for stype in ("multifilesystem", "multifilesystem_nolock"):
+        for variant in ("cold", "stale"):
+            for kind in ("get", "query", "multiget"):
+                rounds = ctx.n(2, 10)
+                bad = xc.run_cold_item_readers(stype, variant, kind, rounds=rounds)
+                cold += 2 * rounds
+                ctx.case(("cold-readers", stype, variant, kind), nontrivial=True)
+                ctx.count("readers:cold-item-requests", 2 * rounds)
+                ctx.count("readers:answers-differ", len(bad))
+                if bad and not reported:
+                    reported = True
+                    b = bad[0]
+                    ctx.violation("two readers of one item whose cache entry is %s: reader %d is answered %s where the same request alone is "
+                                  "answered %s (reader 1 was writing the cache entry: %s)" % (
+                                      variant, b["reader"], b["concurrent_status"], b["alone_status"], b["reader1_was_writing_the_entry"]),
+                                  dict(kind="cold-readers", storage_type=stype, variant=variant, request=kind, rounds=rounds, first=b), signature=None)
+    ctx.extra["readers"] = dict(requests=total, cold_item_requests=cold)
+
+
+# ------------------------------------------------------------------------------- part F: the real serve(), two listening sockets
+def part_served(ctx, et):
+    """radicale.server.serve() itself with hosts = 127.0.0.1:p1, 127.0.0.1:p2: request A on socket 1 is parked at its first
+    rename into the collection data (old state read, exclusive lock held), request B arrives on socket 2.  B must not
+    complete meanwhile, and the outcome must be that of a serial order (decided in Coq)."""
+    rng = ctx.rng
+    w = xc.owner_world(rng)
+    ev = (0, "CEvent", 0)
+    cal = [(1, ("RPropfind", (10,), False)), (1, ("RMkcalendar", (10, 20), ("XNone",)))]
+    pairs = [("proppatch-proppatch", cal, (1, ("RProppatch", (10, 20), ("XProps", ("TRNone",), [(1, 1)]))),
+              (1, ("RProppatch", (10, 20), ("XProps", ("TRNone",), [(2, 2)])))),
+             ("put-put-if-match", cal + [PUT(1, (10, 20, 100), ev)], PUT(1, (10, 20, 100), (0, "CEvent", 1), im=("CTag", ("EtItem", ev))),
+              PUT(1, (10, 20, 100), (0, "CTodo", 1), im=("CTag", ("EtItem", ev)))),
+             ("create-create", cal, PUT(1, (10, 20, 100), ev, inm=True), PUT(1, (10, 20, 100), (0, "CEvent", 1), inm=True))]
+    for _ in range(ctx.n(0, 20)):
+        pairs.append(("gen", xc.gen_setup(rng, 2), xc.gen_request(rng, 1, False, reads=0.0), xc.gen_request(rng, 1, False, reads=0.2)))
+    runs, cases = [], []
+    reported = False
+    for name, setup, a, b in pairs:
+        for stype in ("multifilesystem_nolock", "multifilesystem"):
+            r = xc.run_served_pair(w, [], setup, a, b, et, stype)
+            ctx.case(("served", name, repr(a), repr(b), stype), nontrivial=bool(r["parked"]))
+            ctx.count("served:%s" % stype)
+            rp = dict(kind="served", name=name, world=x_hcheck.world_json(w), setup=setup, a=a, b=b, storage_type=stype,
+                      hosts="127.0.0.1:%d,127.0.0.1:%d" % tuple(r["ports"]), responses=[repr(c) for c in r["resps"]], store=repr(r["store"]))
+            if r["errors"] or any(c is None for c in r["resps"]):
+                ctx.obligation("served-scenario-ran", False, repr((name, stype, r["errors"]))[:500])
+                continue
+            if r["b_done_while_a_parked"] and not reported:
+                reported = True
+                ctx.violation("serve() with two listening sockets (%s): request B on the second socket completed while request A on the first "
+                              "socket was inside its exclusive critical section (%s: %s, store %s)" % (
+                                  stype, name, rp["responses"], rp["store"][:200]), rp, signature=None)
+            runs.append((rp, r))
+            cases.append(((w, [], setup, [a, b], []), (r["store"], r["setup"], r["resps"])))
+    ctx.obligation("served-scenario-parked", any(r["parked"] for _, r in runs), "no run had request A parked inside its exclusive section")
+    nonser = ctx.diff_cases("served_ser", xc.COQ_HEADER, "(fun c => c)", cases, xc.enc_sched_case, xc.enc_sched_out, "ser_case", shard=40)
+    if nonser is None:
+        return
+    ctx.extra["served"] = dict(run=len(runs), not_serialisable=len(nonser))
+    ctx.obligation("correspondence:served-serialisable", not nonser,
+                   "" if not nonser else "%d of %d outcomes through serve() with two sockets are those of no serial order" % (len(nonser), len(runs)))
+    for i in nonser[:1]:
+        rp, r = runs[i]
+        ctx.violation("serve() with two listening sockets (%s): outcome of no one-at-a-time execution -- an acknowledged update is lost "
+                      "(%s: %s; store %s)" % (rp["storage_type"], rp["name"], rp["responses"], rp["store"][:300]), rp, signature=None)
+
+
+# ------------------------------------------------------------------------------- part G: the hook belongs to the write
+def part_hook(ctx):
+    """With a [storage] hook configured, write + hook is one transaction: the snapshots taken by the hook runs of two
+    concurrent PUTs must be those of a one-at-a-time execution ({one event}, {both})."""
+    for stype in ("multifilesystem", "multifilesystem_nolock"):
+        r = xc.run_hook_pair(stype)
+        ctx.case(("hook", stype), nontrivial=True)
+        ctx.count("hook:runs")
+        serial = (r["statuses"] == [201, 201] and len(r["snapshots"]) == 2 and len(r["snapshots"][0]) == 1
+                  and r["snapshots"][1] == ["e1.ics", "e2.ics"])
+        if not serial:
+            ctx.violation("storage hook configured: the hook runs of two concurrent PUTs saw %r -- in every one-at-a-time execution the "
+                          "first run sees one event and the second both (%s)" % (r["snapshots"], stype),
+                          dict(kind="hook", storage_type=stype, snapshots=r["snapshots"], statuses=r["statuses"]), signature=None)
+            return
 
 # ------------------------------------------------------------------------------- entry points
 def run(ctx):
@@ -527,6 +610,10 @@ def run(ctx):
         ctx.log("process stress done")
         part_instances(ctx, et)
         ctx.log("two instances done")
+        part_served(ctx, et)
+        ctx.log("serve() with two sockets done")
+        part_hook(ctx)
+        ctx.log("hook done")
     finally:
         tempfile.tempdir = old_tmp
     ctx.trusted += ["vlib/x_c09.py: the scripted scheduler (wrapper around storage.acquire_lock), the interval recorder, the "
@@ -562,6 +649,22 @@ def replay(ctx, path):
         print("final store:", r["store"])
         print("instance 2 entered while instance 1 held the lock:", r["entered_while_held"], r["b_done_while_held"])
         return 1 if (r["entered_while_held"] or r["b_done_while_held"]) else 0
+    if rp.get("kind") == "hook":
+        r = xc.run_hook_pair(rp["storage_type"])
+        print("hook snapshots:", r["snapshots"], "statuses:", r["statuses"])
+        return 0 if (len(r["snapshots"]) == 2 and len(r["snapshots"][0]) == 1) else 1
+    if rp.get("kind") == "served":
+        setup = x_hcheck.detuple_hist(rp["setup"])
+        (a, b) = x_hcheck.detuple_hist([rp["a"], rp["b"]])
+        r = xc.run_served_pair(world, [], setup, a, b, et, rp["storage_type"])
+        print("responses:", r["resps"], "\nfinal store:", r["store"], "\nB completed while A was parked inside its exclusive section:", r["b_done_while_a_parked"])
+        return 1 if r["b_done_while_a_parked"] else 0
+    if rp.get("kind") == "cold-readers":
+        bad = xc.run_cold_item_readers(rp["storage_type"], rp["variant"], rp["request"], rounds=rp["rounds"])
+        print("answers that differ from the answer of the same request alone:", len(bad))
+        for b in bad[:2]:
+            print(json.dumps(b, indent=1)[:2000])
+        return 1 if bad else 0
     if rp.get("kind") == "readers":
         bad = xc.run_concurrent_readers(3, [tuple(x) for x in rp["plan"]], rp["storage_type"], rounds=rp["rounds"])
         print("answers that differ from the answer of the same request alone:", len(bad))
